@@ -76,6 +76,7 @@ type hRunner struct {
 	rejected int // requests inside the envelope that the agent rejected
 	ghosts   []mGhost
 	ghostPeers map[uint32]bool // GTP peers a FAR was moved away from by an Update FAR
+	precByFilter map[mFilter]uint32
 
 	// callbacks
 	onBefore func(h *hRunner, op *hOp)
@@ -193,6 +194,20 @@ func (h *hRunner) genSession(assoc int) (*vEstSpec, *mSession, map[uint16]*mFlow
 		}
 		if appPrec != 0 && fl != nil {
 			up.Prec, dn.Prec = appPrec, appPrec
+		}
+		if c.UP4 && fl != nil {
+			// UP4 keeps one applications entry per filter, whose priority is the precedence: all PDRs (of any
+			// session) that share a filter carry the same precedence
+			if h.precByFilter == nil {
+				h.precByFilter = map[mFilter]uint32{}
+			}
+			k := mExpectFilter(false, 0x0A000001, fl)
+			if pv, ok := h.precByFilter[k]; ok {
+				up.Prec, dn.Prec = pv, pv
+			} else {
+				h.precByFilter[k] = up.Prec
+				dn.Prec = up.Prec
+			}
 		}
 		if rng.Intn(100) < c.PChoose {
 			up.Choose = true
